@@ -129,6 +129,25 @@ class GenList(object):
         return v
 
 
+class CoroutineModel(object):
+    """The result of calling an `async def` function: the body has not run yet; run() executes it to completion on the spot (the harness decides when -
+    that is the event loop's scheduling decision).  Every `await` inside increments ctx.ghost['await_points'], so a harness can tell whether two effects were
+    separated by a point at which the event loop may run another task."""
+
+    def __init__(self, name, thunk):
+        self.name, self.thunk, self.done, self.value = name, thunk, False, None
+
+    def run(self):
+        if self.done:
+            py_raise(RuntimeError('cannot reuse already awaited coroutine'))
+        self.done = True
+        self.value = self.thunk()
+        return self.value
+
+    def __repr__(self):
+        return '<coroutine %s>' % self.name
+
+
 class SuperProxy(object):
     def __init__(self, after_cls, obj):
         self.after_cls = after_cls
@@ -759,6 +778,14 @@ def call_function(ctx, fn, args, kwargs, defcls=None):
         it = Interp(ctx, frame)
         if isinstance(node, ast.Lambda):
             return it.eval(node.body)
+        if isinstance(node, ast.AsyncFunctionDef):
+            def thunk(it=it, node=node):
+                try:
+                    it.exec_block(node.body)
+                except _Return as r:
+                    return r.value
+                return None
+            return CoroutineModel(name, thunk)
         if _contains_yield(node):
             frame.yields = []
             try:
@@ -1406,6 +1433,49 @@ class Interp(object):
             raise
         for cm in reversed(exits):
             self.exit_cm(cm, None)
+
+    def e_Await(self, e):
+        v = self.eval(e.value)
+        self.ctx.ghost['await_points'] = self.ctx.ghost.get('await_points', 0) + 1
+        if isinstance(v, CoroutineModel):
+            return v.run()
+        aw = getattr(v, '__pyvc_await__', None)
+        if aw is not None:
+            return aw()
+        import inspect
+        if inspect.isawaitable(v):
+            # a real library awaitable (asyncio.sleep(0), a Future): a suspension point whose result is not modelled
+            if inspect.iscoroutine(v):
+                v.close()
+            return None
+        py_raise(TypeError("object %s can't be used in 'await' expression" % type(v).__name__))
+
+    def x_AsyncWith(self, s):
+        """`async with cm:` - __aenter__/__aexit__ of a stub context manager (each an await point); the body runs without other suspension points unless it awaits"""
+        cms = []
+        for item in s.items:
+            cm = self.eval(item.context_expr)
+            ae, ax = getattr(cm, '__pyvc_aenter__', None), getattr(cm, '__pyvc_aexit__', None)
+            if ae is None or ax is None:
+                py_raise(AttributeError('__aenter__'))
+            self.ctx.ghost['await_points'] = self.ctx.ghost.get('await_points', 0) + 1
+            val = ae()
+            if item.optional_vars is not None:
+                self.assign(item.optional_vars, val)
+            cms.append(ax)
+        try:
+            self.exec_block(s.body)
+        except PyExc as e:
+            for ax in reversed(cms):
+                ax(e.value)
+            raise
+        except (_Return, _Break, _Continue):
+            for ax in reversed(cms):
+                ax(None)
+            raise
+        for ax in reversed(cms):
+            self.ctx.ghost['await_points'] = self.ctx.ghost.get('await_points', 0) + 1
+            ax(None)
 
     def enter_cm(self, cm):
         from . import libmodels
